@@ -2,9 +2,19 @@
 C10 — Markov products equal the explicit left-to-right fold over time.
 
 Correspondence: real funsor (sequential_sum_product, naive_…, mixed_… with every num_segments,
-MarkovProduct eager / lazy+reinterpret, the time-independent branch, sarkka_bilmes vs naive) against
-the Lean model FV.C10 (scanIdx / naive / mixed / scanConst over semiring matrices) and the oracle
-`fold1` — the functions about which Props/C10.lean proves scan = naive = mixed = fold1.
+MarkovProduct eager / lazy+reinterpret, the time-independent branch) against the Lean model FV.C10
+(scanIdx / naive / mixed / scanConst over semiring matrices) and the oracle `fold1` — the functions about
+which Props/C10.lean proves scan = naive = mixed = fold1.
+
+sarkka_bilmes_product AND naive_sarkka_bilmes_product against the Lean window chain (FV.C10.SB.windowMat →
+sarkka / naiveSarkka / fold1 → projectFinal; Props/C10/Sarkka.lean proves sarkka = naiveSarkka = fold1), so a
+defect shared by both implementation functions (e.g. in _shift_name) is still seen; result input names against
+FV.C10.SB.resultShifts; _get_shift / _shift_name against the Lean string functions.
+
+eager_markov_product: empty-step branches (trans.reduce(prod_op, time); trans*T / trans**T — these two raise
+AttributeError on the pinned tree, an allowed decline; any value must equal the T-fold) against
+FV.C10.SB.markovEager, and MarkovProduct(...)(**renaming) (eager_subs with step_names) eager / lazy / reflect
++ reinterpret against the fold at the renamed inputs and FV.C10.SB.markovInputs ∘ renameStepNames.
 """
 import itertools
 from collections import OrderedDict
@@ -211,6 +221,24 @@ def mats_equal(a, b, tol):
     return True
 
 
+BIG = 2 ** 53
+
+
+def tol_for(expected, base_tol, ctx=None):
+    """Exact comparison is justified while every expected entry is below 2**53 (non-negative integer
+    semirings: every contributing intermediate is then below 2**53 too, so float64 made no rounding);
+    beyond that float64 itself rounds, and the comparison falls back to a relative tolerance."""
+    if base_tol:
+        return base_tol
+    for row in expected:
+        for x in row:
+            if not isinstance(x, float) and abs(x) >= BIG:
+                if ctx is not None:
+                    ctx.count("tolerance:beyond-2^53")
+                return 1e-12
+    return 0.0
+
+
 def describe(c):
     return {k: (v.tolist() if isinstance(v, np.ndarray) else v) for k, v in c.items()}
 
@@ -286,7 +314,7 @@ def check_case(ctx, c, use_driver=True):
             # model declines (time-independent, not a power of two) but the impl returned a value:
             # fine iff the value equals the oracle (the property only forbids wrong numbers)
             ctx.count("model-declined-impl-value")
-        if not mats_equal(impl[b], fv, tol):
+        if not mats_equal(impl[b], fv, tol_for(fv, tol, ctx)):
             ctx.fail("input", f"C10.{c['algo']}-ne-fold", witness=describe(c),
                      expected=str(fv), got=str(impl[b]),
                      python=PY_TEMPLATE.format(algo=c["algo"], inputs=c["inputs"],
@@ -461,7 +489,9 @@ def sarkka_impl_table(c, r):
 
 
 SARKKA_PY = """
-# replay for C10: sarkka_bilmes_product vs explicit fold (lags {lagsets}, duration {T}, num_periods {np_})
+# replay for C10: {which} (lags {lagsets}, duration {T}, num_periods {np_}) vs the explicit sum over
+# x_0..x_(T-2) of the product of the per-step factors (table `expected`[global][initial window][x_(T-1)], linear space)
+import itertools, math
 import numpy as np
 from collections import OrderedDict
 import funsor.ops as ops
@@ -469,17 +499,49 @@ from funsor.domains import Bint
 from funsor.tensor import Tensor
 from funsor.terms import Variable
 from funsor.sum_product import sarkka_bilmes_product, naive_sarkka_bilmes_product
+inf = float("inf")
 data = np.array({data}, dtype=np.float64)
 trans = Tensor(data, OrderedDict({inputs_dom}))
 sum_op, prod_op = ops.{sum_op}, ops.{prod_op}
 gv = frozenset({gv})
-a = sarkka_bilmes_product(sum_op, prod_op, trans, Variable("time", Bint[{T}]), gv, num_periods={np_})
-e = naive_sarkka_bilmes_product(sum_op, prod_op, trans, Variable("time", Bint[{T}]), gv)
-print(a); print(e)
-FAILS = not (set(a.inputs) == set(e.inputs) and np.allclose(a.align(tuple(e.inputs)).data, e.data, equal_nan=True))
-# (if both functions are wrong in the same way, compare with the explicit sum over x_0..x_(T-2) of the product
-#  of the per-step factors; expected table [global][initial window][x_(T-1)]: see `expected` in the witness)
+tv = Variable("time", Bint[{T}])
+if "{which}" == "sarkka":
+    a = sarkka_bilmes_product(sum_op, prod_op, trans, tv, gv, num_periods={np_})
+else:
+    a = naive_sarkka_bilmes_product(sum_op, prod_op, trans, tv, gv)
+vars_, sizes, S, k, log = {vars_}, {sizes}, {S}, {k}, {log}
+expected = {expected}
+def dec(s):
+    out = {{}}
+    for v in reversed(vars_):
+        out[v] = s % sizes[v]; s //= sizes[v]
+    return out
+FAILS = False
+for g in range(len(expected)):
+    for wi, w in enumerate(itertools.product(range(S), repeat=k)):
+        for cur in range(S):
+            pt = {{"g": g}}
+            pt.update(dec(cur))
+            for j in range(1, k + 1):
+                pt.update({{"_PREV_" * j + v: x for v, x in dec(w[j - 1]).items()}})
+            extra = set(a.inputs) - set(pt)
+            val = float(a(**{{n: x for n, x in pt.items() if n in a.inputs}}).data) if not extra else float("nan")
+            val = math.exp(val) if log else val
+            e = expected[g][wi][cur]
+            if not (val == e or abs(val - e) <= 1e-9 * max(1.0, abs(e))):
+                FAILS = True
+print("FAILS =", FAILS)
 """
+
+
+def sarkka_snippet(c, expected, which):
+    sum_op, prod_op, _, kind = SEMIRINGS[c["sr"]]
+    exp = [[[float(x) for x in row] for row in m] for m in expected]
+    dom = "[" + ", ".join(f"({n!r}, Bint[{s}])" for n, s in c["inputs"]) + "]"
+    return SARKKA_PY.format(which=which, lagsets=c["lagsets"], T=c["T"], np_=c["num_periods"],
+                            data=repr(c["data"].tolist()), inputs_dom=dom, sum_op=sum_op.__name__,
+                            prod_op=prod_op.__name__, gv=["g"] if c["glob"] else [], vars_=c["vars"],
+                            sizes=c["sizes"], S=c["S"], k=c["k"], log=(kind == "log"), expected=repr(exp))
 
 
 def run_sarkka(c, which):
@@ -597,19 +659,12 @@ def check_sarkka(ctx, c, use_driver=True):
             continue
         bad = None
         for g in range(G):
-            if not mats_equal(impl[g], expected[g], tol):
+            if not mats_equal(impl[g], expected[g], tol_for(expected[g], tol, ctx)):
                 bad = g
                 break
         if bad is not None:
-            sum_op, prod_op, _, _ = SEMIRINGS[c["sr"]]
             ctx.fail("input", f"C10.{which}-sarkka-ne-fold", witness=wit,
-                     expected=str(expected[bad]), got=str(impl[bad]),
-                     python=SARKKA_PY.format(lagsets=c["lagsets"], T=T, np_=c["num_periods"],
-                                             data=c["data"].tolist(),
-                                             inputs_dom=[(n, f"Bint[{s}]") for n, s in c["inputs"]]
-                                             .__repr__().replace("'Bint[", "Bint[").replace("]')", "])"),
-                                             sum_op=sum_op.__name__, prod_op=prod_op.__name__,
-                                             gv=["g"] if c["glob"] else []))
+                     expected=str(expected[bad]), got=str(impl[bad]), python=sarkka_snippet(c, expected, which))
             continue
         got_names = set(r.inputs) if hasattr(r, "inputs") else set()
         if got_names != exp_names:
@@ -769,7 +824,7 @@ def check_empty_step(ctx, c, use_driver=True):
         return
     tab = futil.linear_view(tab, kind)
     for b in bpoints:
-        if not same_num(exact(tab[b]), expected[b], tol):
+        if not same_num(exact(tab[b]), expected[b], tol_for([[expected[b]]], tol, ctx)):
             ctx.fail("input", "C10.eager-empty-ne-fold", witness=wit, expected=str(expected[b]),
                      got=str(exact(tab[b])),
                      python=PY_TEMPLATE.format(algo=f"MarkovProduct(step={{}}) [{c['mode']}]", inputs=c["inputs"],
@@ -860,7 +915,7 @@ def check_rename(ctx, c, use_driver=True):
                 return
         else:
             fv = py_fold(c["sr"], allm[b])
-        if not mats_equal(impl[b], fv, tol):
+        if not mats_equal(impl[b], fv, tol_for(fv, tol, ctx)):
             ctx.fail("input", "C10.markov-rename-ne-fold", witness=wit, expected=str(fv), got=str(impl[b]),
                      python=PY_TEMPLATE.format(algo=f"MarkovProduct(...)(**{rename}) [{mode}]", inputs=c["inputs"],
                                                data=c["data"].tolist(),
@@ -930,7 +985,7 @@ def correspond(ctx):
     ctx.assumptions.append("eager_markov_product with empty step and a time-independent transition raises "
                            "AttributeError on the pinned tree (time.size): a decline; the closed forms trans*T / "
                            "trans**T are modelled and proved but exercised only if that line is repaired")
-    ctx.assumptions.append("float64 arithmetic on small integers / dyadic rationals is exact; the log semiring is compared in linear space with rtol 1e-9")
+    ctx.assumptions.append("float64 arithmetic on small integers / dyadic rationals is exact while results stay below 2**53 (beyond that: rtol 1e-12, counted as tolerance:beyond-2^53); the log semiring is compared in linear space with rtol 1e-9")
 
 
 def search(ctx, broken):
